@@ -184,6 +184,19 @@ pub fn tocid_stream(seed: u64, cases: usize, ex: &mut ChildExec) -> Sink {
                     sink.push(op, imp, format!("ok {}", show_cid(&cid)));
                     sink.count("tocid.declared-size-differs");
                 }
+                // a prefix declaring a digest longer than the node's maximum is rejected, even though
+                // the digest the hash function really produces would fit
+                for declared in [s + 1, 2 * s + 1, 288] {
+                    let mut p2 = uvarint(1);
+                    p2.extend(uvarint(codec));
+                    p2.extend(uvarint(code));
+                    p2.extend(uvarint(declared as u64));
+                    let oracle = hash_oracle(s, "", &p2, &data);
+                    let op = format!("tocid {s} T= {} {} H={oracle}", hex(&p2), hex(&data));
+                    let imp = ex.exec(&op);
+                    sink.push(op, imp, "size".into());
+                    sink.count("tocid.declared-size-above-max");
+                }
             }
         }
         sink.count(&format!("tocid.code-{code:x}"));
